@@ -84,8 +84,25 @@ func main() {
 					ns = append(ns, prm.Name())
 				}
 				params[name] = ns
+				if len(fn.FreeVars) > 0 {
+					var fs []string
+					for _, fv := range fn.FreeVars {
+						fs = append(fs, fv.Name())
+					}
+					params[name+"#free"] = fs
+				}
 			}
 		}
+		// every named function of the repository at acceptance time: a function that is not in this
+		// list is new code (e.g. an extracted helper)
+		var all []string
+		for name, fn := range p.fns {
+			if fn.Parent() == nil && fn.Synthetic == "" {
+				all = append(all, name)
+			}
+		}
+		sort.Strings(all)
+		params["#all"] = all
 		os.Exit(writeJSON(filepath.Join(verifDir, "baseline_params.json"), params))
 	case "list":
 		os.Exit(cmdList())
@@ -213,7 +230,7 @@ func cmdBaseline(only ...string) int {
 		delete(bl, prop)
 		pr := runProperty(p, prop, "quick", "")
 		wd := newWorkDir()
-		solveAll(pr, wd, 20, false)
+		solveAll(pr, wd, 10, false)
 		wd.cleanup()
 		for _, r := range aggregate(pr) {
 			if r.Kind == "vacuity" {
